@@ -33,11 +33,15 @@ Ptrs == {"", "/", "/publicKey", "/publicKey/0", "/publicKey/0/id", "/publicKey/-
          \* not JSON pointers at all (RFC 6901: a pointer is empty or starts with "/"); a lenient
          \* implementation may read them as the pointer that follows the first "/"
          "x/service", "#/publicKey/0", "publicKey",
+         \* the URI-fragment spelling with percent escapes (RFC 6901 section 6), which this patch format does not use
+         "#/public%4Bey/0", "#/%73ervice/0",
+         \* a member that is not protected but sounds like the keys' name in resolved documents
+         "/verificationMethod",
          \* a line feed inside a reference token (pattern matching that stops at line ends)
          "/service/0/new\nmember", "/publicKey/0/a\nb"}
 
-UnderPK(p)  == p \in {"/publicKey", "/publicKey/0", "/publicKey/0/id", "/publicKey/-", "#/publicKey/0", "/publicKey/0/a\nb"}
-UnderSvc(p) == p \in {"/service", "/service/0", "/service/0/serviceEndpoint", "x/service", "/service/0/new\nmember"}
+UnderPK(p)  == p \in {"/publicKey", "/publicKey/0", "/publicKey/0/id", "/publicKey/-", "#/publicKey/0", "/publicKey/0/a\nb", "#/public%4Bey/0"}
+UnderSvc(p) == p \in {"/service", "/service/0", "/service/0/serviceEndpoint", "x/service", "/service/0/new\nmember", "#/%73ervice/0"}
 Root(p)     == p = ""
 Protected(p) == UnderPK(p) \/ UnderSvc(p) \/ Root(p)
 
